@@ -146,8 +146,9 @@ RangeNext(s, st, heap, flags) ==
   CASE s.kind = "slice"  -> IF st.idx < st.len THEN [ok |-> TRUE, k |-> st.idx, v |-> heap.s.cells[st.idx + 1]] ELSE [ok |-> FALSE, k |-> 0, v |-> 0]
     [] s.kind = "array"  -> IF st.idx < Len(st.copy)
                             THEN [ok |-> TRUE, k |-> st.idx,
-                                  \* KF03b (as built): the array is ranged through arr[:], i.e. live
-                                  v |-> IF "KF03b" \in flags THEN heap.arr[st.idx + 1] ELSE st.copy[st.idx + 1]]
+                                  \* KF03b (as built): an array VARIABLE is ranged through arr[:], i.e. live
+                                  \* (a call result or a conversion is bound to a temporary first: a copy)
+                                  v |-> IF "KF03b" \in flags /\ s.xf = "var" THEN heap.arr[st.idx + 1] ELSE st.copy[st.idx + 1]]
                             ELSE [ok |-> FALSE, k |-> 0, v |-> 0]
     [] s.kind = "parray" -> IF st.idx < Len(heap.arr) THEN [ok |-> TRUE, k |-> st.idx, v |-> heap.arr[st.idx + 1]] ELSE [ok |-> FALSE, k |-> 0, v |-> 0]
     [] s.kind = "string" -> IF st.idx < Len(st.pairs) THEN [ok |-> TRUE, k |-> st.pairs[st.idx + 1][1], v |-> st.pairs[st.idx + 1][2]] ELSE [ok |-> FALSE, k |-> 0, v |-> 0]
